@@ -325,22 +325,40 @@ func c13Mirror(r *core.Run, rd, wr *core.FuncInfo) {
 	n := 0
 	ast.Inspect(dm.Decl.Body, func(x ast.Node) bool {
 		ifs, ok := x.(*ast.IfStmt)
-		if !ok || ifs.Else == nil {
+		if !ok {
 			return true
 		}
 		be, ok := ifs.Cond.(*ast.BinaryExpr)
-		if !ok || be.Op != token.EQL {
+		if !ok {
 			return true
 		}
 		if v := core.ConstVal(dinfo, be.Y); v == nil || v.ExactString() != "0" {
 			return true
 		}
-		// slot: the string variable assigned in the else branch
+		// the branch taken for a non-empty string (`if n == 0 {..} else {filled}` or `if n > 0 {filled}`) and the
+		// one for an empty string (which may be absent: the slot keeps its zero value)
+		var filled, empty ast.Node
+		switch be.Op {
+		case token.EQL:
+			if ifs.Else == nil {
+				return true
+			}
+			filled, empty = ifs.Else, ifs.Body
+		case token.GTR, token.NEQ:
+			filled = ifs.Body
+			if ifs.Else != nil {
+				empty = ifs.Else
+			}
+		default:
+			return true
+		}
+		outside := func(o types.Object) bool { return o != nil && (o.Pos() < ifs.Pos() || o.Pos() >= ifs.End()) }
+		// slot: the string variable (declared outside the test) assigned in the filled branch
 		var slot types.Object
-		ast.Inspect(ifs.Else, func(m ast.Node) bool {
+		ast.Inspect(filled, func(m ast.Node) bool {
 			if as, ok := m.(*ast.AssignStmt); ok && as.Tok == token.ASSIGN {
 				for _, l := range as.Lhs {
-					if o := core.ObjOf(dinfo, l); o != nil {
+					if o := core.ObjOf(dinfo, l); outside(o) {
 						if b, ok := o.Type().(*types.Basic); ok && b.Kind() == types.String {
 							slot = o
 						}
@@ -356,17 +374,24 @@ func c13Mirror(r *core.Run, rd, wr *core.FuncInfo) {
 		r.Sites++
 		okSlot := true
 		wrong := ""
-		ast.Inspect(ifs.Body, func(m ast.Node) bool {
-			if as, ok := m.(*ast.AssignStmt); ok {
-				for _, l := range as.Lhs {
-					if o := core.ObjOf(dinfo, l); o != nil && o != slot {
-						okSlot = false
-						wrong = o.Name()
+		for _, br := range []ast.Node{filled, empty} {
+			if br == nil {
+				continue
+			}
+			ast.Inspect(br, func(m ast.Node) bool {
+				if as, ok := m.(*ast.AssignStmt); ok {
+					for _, l := range as.Lhs {
+						if o := core.ObjOf(dinfo, l); outside(o) && o != slot {
+							if b, ok := o.Type().(*types.Basic); ok && b.Kind() == types.String {
+								okSlot = false
+								wrong = o.Name()
+							}
+						}
 					}
 				}
-			}
-			return true
-		})
+				return true
+			})
+		}
 		r.Check(okSlot, "C13.mirror", "decodeHeapMap: empty "+slot.Name()+" assigns only "+slot.Name(), w.Pos(ifs.Pos()), "slot isolation", "the branch for an empty "+slot.Name()+" assigns '"+wrong+"' instead: an entry with an empty "+slot.Name()+" loses its other half")
 		return true
 	})
